@@ -99,6 +99,23 @@ CHECKS["C05"] = (
     "DESIGN.md §4 C05",
 )
 
+CHECKS["C20"] = (
+    "E-CH+E-SMT",
+    "CrossHair/z3 symbolic execution of the real restricted-number validation function (symbolic value, references, operators, join) + z3 regular-language inclusion for range/timedelta/restricted strings + solver-enumerated menus for constructors and registered types",
+    "Bounded symbolic model checking of the real code. Kernel: the validation function that restricted_number_type really creates is run "
+    "on a symbolic value (int, bool, real float) against symbolic integer references with solver-chosen operators (all 6, all pairs; "
+    "triples in the thorough tier) and join; each exhausted path tree covers all values and references at once and is compared with "
+    "the comparisons themselves. The constructor (validate, cast, idempotence, result type) is checked through 9 predefined/generated "
+    "types on 27 candidate values. E-SMT: the serializer's output language is included in what the deserializer accepts for range "
+    "(live re_range_* patterns, unbounded digits) and timedelta (patterns captured from the live deserializer); restricted string types "
+    "accept exactly their regex language on solver-generated members, non-members and near-misses. Registered types (range, timedelta, "
+    "Decimal, complex, bytes, bytearray, UUID, pathlib, SecretStr) round trip through serializer/deserializer, dump/parse_string and "
+    "the command line on solver-enumerated menus; secrets never appear in dumps.",
+    "Trusted: CrossHair/z3, floats as reals, the regular models of str(timedelta)/range_serializer output (validated on samples). "
+    "Outside: float rounding, values beyond the menus for the C-implemented codecs (decimal, base64, uuid, datetime).",
+    "DESIGN.md §4 C20",
+)
+
 NOT_APPLICABLE = {
     "C13": "the resolver's only input is source code on disk (inspect.getsource/ast.parse/import); a symbolic program cannot be "
     "represented for that code and types/defaults are part of the program, so no dimension of the quantifier can be a solver variable",
